@@ -20,7 +20,7 @@ from lib import common as C
 
 ID = "C04"
 PROP_MODULES = ["GPVerif.Props.C04"]
-BUILD_TARGETS = ["GPVerif.Props.C04", "GPVerif.Gen.FantasyFrame", "GPVerif.Model.Fantasy"]
+BUILD_TARGETS = ["GPVerif.Props.C04", "GPVerif.Gen.FantasyFrame", "GPVerif.Gen.FantasyAlgebra", "GPVerif.Model.Fantasy"]
 RULE = ("cells of {model batch () / (2,)} x {plain, shared inputs, per-fantasy inputs, un-batched inputs} x {Gaussian, "
         "FixedNoise, FixedNoise+learned, multitask} x {default strategy, WISKI} x depth 1-3 x fast_pred_var x "
         "detach_test_caches (+ full-rank Lanczos cells); data, hyper-parameters, sizes (n<=10, f<=4, d<=2, t<=3) and "
@@ -28,6 +28,7 @@ RULE = ("cells of {model batch () / (2,)} x {plain, shared inputs, per-fantasy i
         "get_fantasy_model returned a model (rejected combinations are counted separately and are not distinct cases)")
 EXHAUSTIVE = False
 TRUSTED = ["translator harness/translate/g6_fantasy_frame.py (Python ast -> Frame.Op lists)",
+           "translator harness/translate/g7_fantasy_algebra.py (Python ast -> DMat definitions / routing)",
            "modelled not verified: torch / linear_operator primitives (Cholesky, triangular solve, cat_rows, "
            "root_decomposition, root_inv_decomposition, stable_pinverse, deepcopy)",
            "the harness's dense evaluation of the model's own kernel / mean / noise (the property's K, m, noise)"]
@@ -39,6 +40,7 @@ ASSUMPTIONS = ["float64 only; kernel matrices are evaluated once by the harness 
                "Lanczos cells (max_cholesky_size(0), full rank) are compared at the accuracy linear_operator delivers"]
 
 GEN = os.path.join(C.LEAN_DIR, "GPVerif", "Gen", "FantasyFrame.lean")
+GEN_ALG = os.path.join(C.LEAN_DIR, "GPVerif", "Gen", "FantasyAlgebra.lean")
 SCALE = 2 ** 100
 LIK_NAME = {"gauss": "gaussian", "fixed": "fixednoise", "fixedl": "fixednoise+learned", "mt": "multitask"}
 T_TASKS = 2
@@ -55,6 +57,9 @@ def generate(ctx):
     descs, changed = g6_fantasy_frame.generate(C.REPO, GEN)
     ctx.notes["gen_changed"] = changed
     ctx.notes["frame_ops"] = {d["name"]: len(d["ops"]) for d in descs}
+    from translate import g7_fantasy_algebra
+    info = g7_fantasy_algebra.generate(C.REPO, GEN_ALG)
+    ctx.notes["gen_algebra"] = info
 
 
 # ------------------------------------------------------------------ real models
@@ -398,6 +403,9 @@ def cases(tier, rng):
         # (10) through IndependentModelList.get_fantasy_model
         for lik in liks:
             out.append(_case(rng, lik=lik, fpv=1, via_list=1, steps=[_step(rng, "plain")]))
+        out.append(_case(rng, lik="fixed", aux_lik="fixed", fpv=1, via_list=1, steps=[_step(rng, "plain", f=2)]))
+        out.append(_case(rng, lik="fixedl", aux_lik="fixed", fpv=0, via_list=1, steps=[_step(rng, "plain", f=3)]))
+        out.append(_case(rng, lik="gauss", aux_lik="fixedl", fpv=1, via_list=1, steps=[_step(rng, "plain", f=1)]))
         # (9) deepcopy refuses (as it does for objects holding non-leaf tensors): the call must fail *and* leave the
         #     source as it was
         out.append(_case(rng, lik="gauss", fpv=1, poison="model", steps=[_step(rng, "plain")]))
@@ -490,10 +498,11 @@ def _run_case(cfg):
         p0m, p0c = p0.mean.detach().clone(), p0.covariance_matrix.detach().clone()
         rec["strategy_class"] = type(source.prediction_strategy).__name__
         if cfg.get("via_list"):
-            acfg = dict(cfg, lik="gauss", b=[], strategy="default", n=3)
+            acfg = dict(cfg, lik=cfg.get("aux_lik", "gauss"), b=[], strategy="default", n=3)
             aux, _, _, _ = build_source(acfg, gen)
             aux(_rand(gen, 2, d))
             aux_xf, aux_yf = _rand(gen, 2, d), _randn(gen, 2)
+            aux_nz = _rand(gen, 2, lo=0.05, hi=0.5) if acfg["lik"] in ("fixed", "fixedl") else None
         cur = source
         B = b
         X_full, Y_full, N_full = x, y, fixed_noise
@@ -532,10 +541,37 @@ def _run_case(cfg):
                 if cfg.get("via_list") and si == 0:
                     # through IndependentModelList.get_fantasy_model (models/model_list.py), second member = a small
                     # Gaussian model whose fantasy is not examined
+                    from unittest import mock
                     ml = gpytorch.models.IndependentModelList(cur, aux)
-                    lkw = {"noise": [kw["noise"], None]} if "noise" in kw else {}
-                    out = ml.get_fantasy_model([xf, aux_xf], [yf, aux_yf], **lkw)
+                    nlist = [kw.get("noise"), aux_nz]
+                    lkw = {"noise": nlist} if any(v is not None for v in nlist) else {}
+                    seen = {}
+                    orig_gfm = gpytorch.models.ExactGP.get_fantasy_model
+
+                    def rec_gfm(self_, *a, **k):
+                        seen[id(self_)] = (a, k)
+                        return orig_gfm(self_, *a, **k)
+                    with mock.patch.object(gpytorch.models.ExactGP, "get_fantasy_model", rec_gfm):
+                        out = ml.get_fantasy_model([xf, aux_xf], [yf, aux_yf], **lkw)
                     nxt = out.models[0]
+                    obs_routes = []
+                    for mm, xin, yin in ((cur, xf, yf), (aux, aux_xf, aux_yf)):
+                        a, k = seen.get(id(mm), ((), {}))
+                        ok_pos = len(a) == 2 and a[0] is xin and a[1] is yin
+                        if "noise" not in k:
+                            r_ = "-"
+                        elif k["noise"] is None:
+                            r_ = "None"
+                        else:
+                            r_ = next((str(i) for i, v in enumerate(nlist) if v is k["noise"]), "?")
+                        obs_routes.append(r_ if ok_pos else "badpos:" + r_)
+                    rec["routes"] = {"has_noise": int(bool(lkw)), "present": [int(v is not None) for v in nlist],
+                                     "observed": obs_routes}
+                    # the second member's fantasy noise must be its own
+                    if aux_nz is not None:
+                        an = out.models[1].likelihood.noise_covar.noise
+                        want = torch.cat([aux.likelihood.noise_covar.noise, aux_nz], -1)
+                        rec["aux_noise_ok"] = bool(an.shape == want.shape and torch.equal(an, want))
                 else:
                     nxt = cur.get_fantasy_model(xf, yf, **kw)
             except Exception as e:  # noqa: BLE001  (the real code rejects / crashes: classified by the caller)
@@ -575,6 +611,10 @@ def _run_case(cfg):
             sizes.append(f)
             N = sum(sizes)
             srec = {"si": si, "B": list(Bn), "sizes": list(sizes), "obs": {}, "mode": mode}
+            if N_full is not None and nz is not None:
+                srec["noise_full"] = N_full.detach()
+                ln = getattr(getattr(nxt.likelihood, "noise_covar", None), "noise", None)
+                srec["lik_noise"] = None if ln is None else _expand_to(ln.detach(), Bn, (N,))
             # train data of the new model
             ti = _expand_to(nxt.train_inputs[0], Bn, (N, d))
             tt = _expand_to(nxt.train_targets, Bn, (N, *ytail))
@@ -609,11 +649,16 @@ def _run_case(cfg):
                     srec["obs"]["interp_response_cache"] = None if c is None else c.detach()
                     srec["wmat_full"] = fs.prepare_dense_wmat().to_dense().detach()
                     srec["wmat_src"] = cur.prediction_strategy.prepare_dense_wmat().to_dense().detach()
+                    srec["Kuu"] = fs.train_prior_dist.lazy_covariance_matrix.base_linear_op.to_dense().detach()
+                    srec["Lroot"] = None if P is None else P.root_decomposition(method="cholesky").root.to_dense().detach()
             # ---- prediction of the fantasy model
             try:
                 pf = nxt(xs)
                 srec["pm"] = pf.mean.detach().reshape(*Bn, t * TT)
                 srec["pc"] = pf.covariance_matrix.detach()
+                if cfg["strategy"] == "wiski":
+                    fmc = _get_memo(fs, "fantasy_mean_cache")
+                    srec["obs"]["fantasy_mean_cache"] = None if fmc is None else fmc.detach()
                 if mt and not pf._interleaved:
                     srec["pm"] = None
             except Exception as e:  # noqa: BLE001
@@ -719,8 +764,10 @@ def wiski_line(srec, TT):
     W = srec["wmat_full"]
     r = (y - m[:N]).unsqueeze(-1)
     Dinv = (1.0 / D)
+    Sq = torch.diag(1.0 / D[n0:].sqrt())          # observed D_f^{-1/2} (what sqrt_inv_matmul multiplies with)
     return " ".join(["wiski", C.mat_tokens(W[:, :n0]), C.mat_tokens(torch.diag(Dinv[:n0])), C.mat_tokens(r[:n0]),
-                     C.mat_tokens(W[:, n0:]), C.mat_tokens(torch.diag(Dinv[n0:])), C.mat_tokens(r[n0:])])
+                     C.mat_tokens(W[:, n0:]), C.mat_tokens(torch.diag(Dinv[n0:])), C.mat_tokens(r[n0:]),
+                     C.mat_tokens(Sq), C.mat_tokens(srec["Kuu"]), C.mat_tokens(srec["Lroot"])])
 
 
 def _parse_scaled(tokens, pos=0):
@@ -764,7 +811,7 @@ def float_oracle(srec, e, TT):
     mc = Ji @ r
     Kt = K[N:, :N]
     kappa = float(J.abs().sum(-1).max() * Ji.abs().sum(-1).max())
-    return {"status": "ok", "eq": "11111", "kappa": kappa,
+    return {"status": "ok", "eq": "111111", "kappa": kappa,
             "mats": [mc.unsqueeze(-1).numpy(), Ji.numpy(), (m[N:] + Kt @ mc).unsqueeze(-1).numpy(),
                      (K[N:, N:] - Kt @ Ji @ Kt.T).numpy()]}
 
@@ -876,6 +923,19 @@ def _run_all(ctx, case_list, use_driver=True, element_limit=3):
                              "f": [s["f"] for s in cfg["steps"]], "strategy_class": rec.get("strategy_class")})
             ctx.notes["cells"][cell] = ctx.notes["cells"].get(cell, 0) + 1
             ctx.count(f"depth_reached_{done}")
+        if rec.get("routes") is not None:
+            ro = rec["routes"]
+            if use_driver:
+                lines.append(" ".join(["routes", str(ro["has_noise"]), str(len(ro["present"]))] + [str(v) for v in ro["present"]]))
+                pending.append(("routes", cfg, ro["observed"], (), kp, rp))
+            else:
+                want = [str(i) if (ro["has_noise"] and v) else "-" for i, v in enumerate(ro["present"])]
+                if ro["observed"] != want:
+                    fail(f"fantasy:{lname}:modellist:routing", f"IndependentModelList routed noise {ro['observed']}, "
+                         f"specification {want}", rp)
+            if rec.get("aux_noise_ok") is False:
+                fail(f"fantasy:{lname}:modellist:routing", "second member of the model list: "
+                     "its fantasy likelihood noise is not [its noise; its fantasy noise] (keyword routing or concatenation order)", rp)
         # frame
         for si, k, w in rec["frame"]:
             fail(f"frame:{k.split(':')[0]}", f"{w} [{lname}/{cfg['strategy']} b={cfg['b']} step {si} fpv={cfg['fpv']}]",
@@ -901,6 +961,15 @@ def _run_all(ctx, case_list, use_driver=True, element_limit=3):
                     pending.append(("fant", cfg, srec, e, kp, rp))
                 else:
                     compare_step(ctx, cfg, srec, e, float_oracle(srec, e, TT), kp, rp, fail, broke)
+            if use_driver and srec.get("noise_full") is not None:
+                if srec.get("lik_noise") is None:
+                    fail(f"{kp}:fantasy-noise-order", "fantasy likelihood carries no noise tensor of the concatenated size", rp)
+                else:
+                    e = _elements(B, "n", 1)[0]
+                    n0 = sum(srec["sizes"][:-1])
+                    lines.append(" ".join(["noisecat", C.mat_tokens(srec["noise_full"][e][:n0].unsqueeze(-1)),
+                                           C.mat_tokens(srec["noise_full"][e][n0:].unsqueeze(-1))]))
+                    pending.append(("noisecat", cfg, srec, e, kp, rp))
             # model of cat_rows on the observed factors (one element)
             if (use_driver and cfg["strategy"] == "default" and not cfg.get("lanczos")
                     and srec.get("src_root") is not None and srec.get("src_root_inv") is not None
@@ -910,7 +979,8 @@ def _run_all(ctx, case_list, use_driver=True, element_limit=3):
                 eb = e[len(e) - nb_src:] if nb_src else ()
                 lines.append(root_line(srec, e, eb, TT))
                 pending.append(("root", cfg, srec, e, kp, rp))
-            if use_driver and cfg["strategy"] == "wiski" and srec["obs"].get("interp_inner_prod") is not None and not B:
+            if (use_driver and cfg["strategy"] == "wiski" and srec["obs"].get("interp_inner_prod") is not None and not B
+                    and srec.get("Lroot") is not None and srec["Kuu"].dim() == 2):
                 s2 = dict(srec)
                 lines.append(wiski_line(s2, TT))
                 pending.append(("wiski", cfg, srec, (), kp, rp))
@@ -926,10 +996,12 @@ def _run_all(ctx, case_list, use_driver=True, element_limit=3):
             else:
                 broke(f"{kp}:driver", f"driver replied `{rep[:80]}` to a {kind} request", rp)
             continue
-        ex = parse_reply(rep)
+        ex = parse_reply(rep) if kind in ("fant", "root", "wiski") else None
         if kind == "fant":
-            if ex["eq"] != "11111":
-                broke(f"{kp}:model-inc-vs-scratch", f"Lean model: incremental fold and from-scratch solve differ (eq={ex['eq']})", rp)
+            if ex["eq"] != "111111":
+                broke(f"{kp}:generated-inc-vs-scratch", f"the update regenerated from the Python source (Gen.FantasyAlgebra) "
+                      f"does not equal the from-scratch solve / the hand-written model (eq={ex['eq']}: mc, Kinv, pm, pc, "
+                      f"residual, gen=model)", rp)
             if ex["kappa"] > 1e6:
                 ctx.count("discarded_illconditioned")
                 continue
@@ -955,17 +1027,44 @@ def _run_all(ctx, case_list, use_driver=True, element_limit=3):
                     broke(f"{kp}:invRootUpdate-model", f"new_covar_cache differs from the model's invRootUpdate on the "
                           f"observed factors by {_maxabs(Ro - Rpm):.3e} (tol {tol:.1e})", rp)
         elif kind == "wiski":
-            if ex["eq"] != "11":
-                broke(f"{kp}:model-wiski-update", f"Lean model: updated WISKI caches differ from recomputation (eq={ex['eq']})", rp)
-            Pm, cm = ex["mats"]
+            if ex["eq"] != "1":
+                broke(f"{kp}:generated-wiski-update", "generated WISKI response-cache update differs from the recomputation "
+                      "from the concatenated data", rp)
+            Pm, cm, P0, mcg = ex["mats"]
             Po = srec["obs"]["interp_inner_prod"].numpy()
             co = srec["obs"]["interp_response_cache"].numpy().reshape(cm.shape)
             ctx.count("wiski_cache_checks")
-            for nm, o, mm in (("interp_inner_prod", Po, Pm), ("interp_response_cache", co, cm)):
+            if _maxabs(Pm - P0) > 1e-12 * max(1.0, _maxabs(P0)):
+                broke(f"{kp}:generated-wiski-update", f"generated interp_inner_prod update differs from the recomputation "
+                      f"from the concatenated data by {_maxabs(Pm - P0):.3e}", rp)
+            for nm, o, mm in (("interp_inner_prod", Po, P0), ("interp_response_cache", co, cm)):
                 err = _maxabs(o - mm)
                 ctx.notes["max_err"][nm] = max(ctx.notes["max_err"].get(nm, 0.0), err / max(1.0, _maxabs(mm)))
                 if err > 1e-9 * max(1.0, _maxabs(mm)):
                     fail(f"{kp}:{nm}", f"updated `{nm}` differs from the recomputation from the full data by {err:.3e}", rp)
+            fo = srec["obs"].get("fantasy_mean_cache")
+            if fo is not None:
+                fo = fo.numpy().reshape(mcg.shape)
+                err = _maxabs(fo - mcg)
+                ctx.notes["max_err"]["wiski:fantasy_mean_cache-vs-generated"] = max(
+                    ctx.notes["max_err"].get("wiski:fantasy_mean_cache-vs-generated", 0.0), err / max(1.0, _maxabs(mcg)))
+                if err > 1e-7 * max(1.0, _maxabs(mcg)):
+                    broke(f"{kp}:generated-fantasy_mean_cache", f"fantasy_mean_cache differs from the generated Woodbury "
+                          f"form on the observed root by {err:.3e}", rp)
+        elif kind == "noisecat":
+            got = rep.split("|")[1].split()
+            rows, _ = C.parse_mat(got)
+            want = [C.frac(v) for v in srec["lik_noise"][e].tolist()]
+            ctx.count("noise_concat_checks")
+            if not rep.startswith("ok eq=1") or [r_[0] for r_ in rows] != want:
+                fail(f"{kp}:fantasy-noise-order", "noise tensor of the fantasy likelihood is not [old noise; fantasy noise] "
+                     f"(generated concat vs observed, element {list(e)})", dict(rp, element=list(e)))
+        elif kind == "routes":
+            ctx.count("route_checks")
+            got = rep.split("|")[1].split()
+            if not rep.startswith("ok eq=11") or got != srec:
+                fail(f"fantasy:{LIK_NAME[cfg['lik']]}:modellist:routing", f"IndependentModelList.get_fantasy_model routed "
+                     f"noise entries {srec} to its members; generated/specified routing is {got} ({rep.split('|')[0].strip()})", rp)
     return recs
 
 
